@@ -458,11 +458,14 @@ void vec(vf::Draw &d, vf::Ctx &ctx) {
       ctx.label(tail ? "mask:tail-at-guard" : "mask:arbitrary");
       static thread_local vf::GuardBlock gb(4096);
       size_t bytes = (tail ? k : S) * sizeof(T);
-      T *p = (T *)gb.end_flush(bytes, 0);
+      // the aligned forms (Aligned=true) are only legal on storage aligned to the register width: a page-aligned block start
+      bool al = !tail && d.boolean();
+      ctx.label(al ? "mask:aligned-form" : "mask:unaligned-form");
+      T *p = al ? (T *)gb.start_flush(0) : (T *)gb.end_flush(bytes, 0);
       gb.paint_window(p, bytes, 512);
       std::memcpy(p, a, bytes);
       V v;   // zero-initialised: disabled lanes must read back as zero (generic implementation and AVX-512 merge-into-zero agree)
-      v.mask_load(p, (decltype(array_to_mask(std::declval<const int(&)[S == 1 ? 2 : S]>())))m, false);
+      v.mask_load(p, (decltype(array_to_mask(std::declval<const int(&)[S == 1 ? 2 : S]>())))m, al);
       T got[S + 1]; lanes_of(v, got);
       for (size_t i = 0; i < S; ++i) {
         bool en = (m >> i) & 1;
@@ -476,7 +479,7 @@ void vec(vf::Draw &d, vf::Ctx &ctx) {
       gb.paint_window(p, bytes, 512);
       unsigned char before[S * sizeof(T) + 8];
       std::memcpy(before, p, bytes);
-      w.mask_store(p, (decltype(array_to_mask(std::declval<const int(&)[S == 1 ? 2 : S]>())))m, false);
+      w.mask_store(p, (decltype(array_to_mask(std::declval<const int(&)[S == 1 ? 2 : S]>())))m, al);
       for (size_t i = 0; i < (tail ? k : S); ++i) {
         bool en = (m >> i) & 1;
         if (en) { if (!same(p[i], b[i])) { ctx.fail("mask_store(mask=0x%llx): enabled lane %zu: memory %s expected %s", (unsigned long long)m, i, vfo::show(p[i]).c_str(), vfo::show(b[i]).c_str()); break; } }
